@@ -495,6 +495,39 @@ Section MuxProofs.
              end.
   Qed.
 
+  (** *** histories with a changing MuxMapper: the answer depends on the mapper at the time of
+      the request only, whatever was registered (and served) before *)
+  Lemma str_in_mapper : forall b (m : mapper),
+    str_in b (map fst m) = match alookup b m with Some _ => true | None => false end.
+  Proof.
+    intros b m. induction m as [|[k v] m IH]; cbn; [reflexivity|].
+    destruct (String.eqb b k); [reflexivity | exact IH].
+  Qed.
+
+  Theorem mapper_history_503 : forall sv pre m rq p,
+    search_nocache sv rq = Route p -> alookup (pe_backend p) m = None ->
+    last (serve_hist re_match re_replace ip_allow sv (pre ++ [(m, rq)])%list) (Panicked, None)
+      = (Failed 503, None).
+  Proof.
+    intros sv pre m rq p H Hm. unfold serve_hist. rewrite map_app. cbn [map fst snd]. rewrite last_last.
+    unfold serve_mapped, Mux.serve_nocache.
+    change (Mux.search_nocache re_match ip_allow (with_mapper sv m) rq) with (search_nocache sv rq).
+    rewrite H. cbn [Mux.dispatch with_mapper sv_backends]. rewrite str_in_mapper, Hm. reflexivity.
+  Qed.
+
+  Theorem mapper_history_dispatch : forall sv pre m rq p h path',
+    search_nocache sv rq = Route p -> alookup (pe_backend p) m = Some h ->
+    rewrite_path p (rq_path rq) = Some path' ->
+    last (serve_hist re_match re_replace ip_allow sv (pre ++ [(m, rq)])%list) (Panicked, None)
+      = (Dispatched (pe_backend p) path', Some h).
+  Proof.
+    intros sv pre m rq p h path' H Hm Hr. unfold serve_hist. rewrite map_app. cbn [map fst snd]. rewrite last_last.
+    unfold serve_mapped, Mux.serve_nocache.
+    change (Mux.search_nocache re_match ip_allow (with_mapper sv m) rq) with (search_nocache sv rq).
+    rewrite H. cbn [Mux.dispatch with_mapper sv_backends]. rewrite str_in_mapper, Hm, Hr.
+    cbn [handler_of]. now rewrite Hm.
+  Qed.
+
   (** *** router-level C05 clauses, cache-less *)
   Theorem denied_403_nocache : forall sv rq,
     denied sv rq = true -> serve_nocache sv rq = Failed 403.
